@@ -789,6 +789,45 @@ func c09File(c0 *Ctx) {
 		hk, hd, ht = append(hk, "probe"), append(hd, x.dump), append(ht, t)
 	}
 	nAcc := c09fAcceptedHyps(c, hk, hd, ht)
+	// the repo's own .mro files (third audit A10): which hypothesis of the text-side file theorem
+	// fails on them - histogram only (they hold comments and may use constructs the dump does not carry)
+	if seeds, _ := c08LoadSeeds(c); len(seeds) > 0 {
+		var creqs [][]string
+		var cnames []string
+		for _, sd := range seeds {
+			x := realParse(string(sd.src))
+			if !strings.HasPrefix(x.dump, "some\t") {
+				r.hist("corpus-mro:not-a-file-for-the-real-parser-or-outside-the-dump")
+				continue
+			}
+			creqs = append(creqs, append([]string{"C09.filehyps"}, strings.Split(strings.TrimPrefix(x.dump, "some\t"), "\t")...))
+			cnames = append(cnames, sd.name)
+		}
+		for j, rep := range c.Drv.AskBatch(creqs) {
+			f := map[string]string{}
+			for _, w := range strings.Fields(rep) {
+				if kv := strings.SplitN(w, "=", 2); len(kv) == 2 {
+					f[kv[0]] = kv[1]
+				}
+			}
+			var failed []string
+			for _, k := range [][2]string{{"strs", "F6b"}, {"nonegz", "F26"}, {"mb", "F25"}, {"mb32", "F29"}, {"dist", "F40"}, {"calls", "F34"}} {
+				if v, ok := f[k[0]]; ok && v != "true" {
+					failed = append(failed, "not-"+k[0]+"("+k[1]+")")
+				}
+			}
+			combo := "all-hypotheses"
+			if len(f) == 0 {
+				combo = "bad-reply"
+			} else if len(failed) > 0 {
+				combo = strings.Join(failed, ",")
+			}
+			r.hist("corpus-mro:" + combo + ":wf=" + f["wf"])
+			if combo != "all-hypotheses" || f["wf"] != "true" {
+				r.note("corpus .mro file %s: filehyps %s", cnames[j], rep)
+			}
+		}
+	}
 	c09fSample(c)
 	r.note("file: hypotheses of the text-side theorems on %d accepted texts (of %d), parsefile32 on all, sample text: %v", nAcc, len(ht), time.Since(t0).Round(time.Millisecond))
 }
